@@ -149,6 +149,9 @@ func c17(env *Env, rep *Report) {
 			}
 		}
 	}
+	if gwBin() != "" {
+		bindCaps(rep, "C17", env)
+	}
 	rep.add("distinct", int64(distinct))
 	rep.add("states", int64(distinct))
 }
